@@ -95,7 +95,7 @@ def cases(c):
             NFFT = gen.pick(rng, [None if base <= N else base + 1, base + int(rng.integers(0, 40)), base + 1 + 2 * int(rng.integers(0, 20))])
             out.append({'form': 'class', 'rel': 'scale' if j % 2 == 0 else 'sampling', 'cls': cls, 'p': params, 'N': N,
                         'NFFT': NFFT, 'cplx': int(rng.integers(0, 2)), 'kind': gen.pick(rng, ['noise', 'tones', 'ar']),
-                        'fs': draw_fs(rng), 'fs2': draw_fs(rng), 'j': j})
+                        'fs': draw_fs(rng), 'fs2': draw_fs(rng), 'reuse': ((j // 3) % 4) if j % 3 == 1 else None, 'j': j})
     # the Daniell periodogram class (13th PSD class of the package): scale_by_freq clause only
     for j in range(40 if c.tier == 'quick' else 9600):
         N = int(rng.integers(32, 100))
@@ -157,7 +157,10 @@ def run_case(c, d):
         return
     for role, f, sc in runs:
         try:
-            p = E.build(cls, d['p'], x, NFFT=d['NFFT'], fs=f, scale=sc)
+            if d.get('reuse') is not None and role != 'base':
+                p = E.build_reused(cls, d['p'], x, NFFT=d['NFFT'], fs=f, scale=sc, salt=d['reuse'])
+            else:
+                p = E.build(cls, d['p'], x, NFFT=d['NFFT'], fs=f, scale=sc)
             log.append({'role': role, 'psd': np.asarray(p.psd), 'df': p.df, 'NFFT': p.NFFT,
                         'freqs': np.asarray(p.frequencies(), dtype=float), 'fs': f, 'error': None})
         except Exception as exc:
